@@ -1,6 +1,8 @@
 import TxVerif.Props.C01
 import TxVerif.Tie.Order
 import TxVerif.Tie.Layout
+import TxVerif.Props.C01Engine
+import TxVerif.Props.C01EngineDfn
 open TxVerif
 #print axioms safe_step
 #print axioms safe_run
@@ -14,3 +16,49 @@ open TxVerif
 #print axioms Tie.try_commit_order
 #print axioms Tie.writer_sort_stable
 #print axioms Tie.meta_layout
+#print axioms natPair_inj
+#print axioms contentHash_inj
+#print axioms hash_kinds
+#print axioms run_clear
+#print axioms run_flat
+#print axioms run_commit
+#print axioms run_named
+#print axioms et_doFlush
+#print axioms et_ops
+#print axioms et_commit_ok
+#print axioms et_txn_shape
+#print axioms engOk_next
+#print axioms et_txn_accepted
+#print axioms histReach_spec
+#print axioms et_history_accepted
+#print axioms histTrace_hdr
+#print axioms engine_txn_accepted
+#print axioms engine_history_accepted
+#print axioms engine_history_accepted_from
+#print axioms engine_histReach
+#print axioms engine_cfg_safe
+#print axioms engine_ofFile_ok
+#print axioms engine_crash_atomic
+#print axioms engine_crash_reads
+#print axioms engine_commit_publishes
+#print axioms c01E0_ok
+#print axioms etTrack_step
+#print axioms etTrack_commit
+#print axioms dirtyAt_ops
+#print axioms engNext_dfn_complete
+#print axioms txnDirty_of_write
+#print axioms engRun_dfn_mono
+#print axioms engine_dfn_complete
+#print axioms txnDirty_owned
+#print axioms engine_dfn_written
+#print axioms engine_dfn_history
+#print axioms engine_dfn_ofFile
+#print axioms engine_crash_reads_state
+#print axioms engine_crash_reads_committed
+#print axioms txnDirty_iff
+#print axioms et_position
+#print axioms engine_crash_position
+#print axioms engine_crash_end
+#print axioms engine_history_is_runHistoryO
+#print axioms engine_clear_writes_any_order
+#print axioms c01B0_ok
